@@ -16,7 +16,7 @@ use fil_actors_runtime::{
 use fvm_shared::econ::TokenAmount;
 use num_traits::Zero;
 use serde_json::json;
-use std::collections::{BTreeMap, HashSet};
+use std::collections::{BTreeMap, BTreeSet, HashSet};
 use vm_api::VM;
 use vm_api::trace::InvocationTrace;
 use vm_api::util::get_state;
@@ -310,8 +310,9 @@ fn exec<F: FnOnce(&mut Chain) -> Applied>(c: &mut Chain, cx: &mut Ctx, label: St
     cx.lines.push(format!("{} @{} -> {}", label, c.epoch(), if res.ok() { "ok".to_string() } else { format!("err {}", res.code.value()) }));
     if res.ok() && !is_tick { cx.nontrivial += 1; }
     monitors(c, cx, &label, &res, &before, &after, &traces, &errors, is_tick, is_create, injected);
-    if cx.which == Which::C05 && !res.panicked && cx.lean.is_some() {
-        cron_mirror(c, cx, &label, &before, &after, &traces, is_tick);
+    if cx.which == Which::C05 && !res.panicked {
+        if cx.lean.is_some() { cron_mirror(c, cx, &label, &before, &after, &traces, is_tick); }
+        if !cx.stop { et_mirror(c, cx, &label, &res, &before, &after, &traces, is_tick); }
     }
     if cx.which == Which::C03 && !res.panicked && cx.lean.is_some() {
         ledger_mirror(c, cx, &label, &res, &before, &after, &traces);
@@ -388,6 +389,86 @@ fn cron_mirror(c: &Chain, cx: &mut Ctx, label: &str, before: &Snap, after: &Snap
             if ans_cmp != want {
                 cx.agree = false;
                 let hdr = vec![format!("property C05 seed {} seq {}", cx.cfg.seed, cx.seq), format!("cron schedule model disagrees at: {} (miner {})", label, i)];
+                let path = write_replay("C05", &format!("corr-{}-{}", cx.cfg.seed, cx.seq), &hdr, &cx.lines);
+                cx.rep.disagreements.push(Disagreement { seq: cx.seq, step: cx.rep.ops, op: line, impl_out: want, model_out: ans, replay: path });
+                cx.stop = true;
+                return;
+            }
+        }
+    }
+}
+
+/// C05 "early terminations are eventually processed": the model `BA.EarlyTerm` (queue size and the
+/// miner's ProcessEarlyTerminations events) is compared with the real run where one kind of step
+/// happened for a miner (a TerminateSectors message; a tick with only the deadline callback; a tick
+/// with exactly one early-termination callback).  Independent oracle after every message and tick: a
+/// miner with pending early terminations has such an event queued for the next tick.
+fn et_mirror(c: &Chain, cx: &mut Ctx, label: &str, res: &Applied, before: &Snap, after: &Snap, traces: &[InvocationTrace], is_tick: bool) {
+    let epoch = c.epoch();
+    let mut all = vec![];
+    for t in traces { walk(t, &mut all); }
+    let kind = label.split(' ').next().unwrap();
+    let target: Option<usize> = label.split(' ').find_map(|w| w.strip_prefix("miner=").and_then(|x| x.parse().ok()));
+    let evs = |p: &PowerView, mid: u64| -> Vec<i64> { let mut v: Vec<i64> = p.cron_events.get(&mid).map(|v| v.iter().filter(|(_, t)| *t == 2).map(|(e, _)| *e).collect()).unwrap_or_default(); v.sort(); v };
+    let ints = |v: &[i64]| -> String { if v.is_empty() { "-".into() } else { v.iter().map(|x| x.to_string()).collect::<Vec<_>>().join(",") } };
+    for (i, a) in after.miners.iter().enumerate() {
+        if !a.exists { continue; }
+        let Some(b) = before.miners.get(i) else { continue };
+        if !b.exists { continue; }
+        let id = c.miners[i].id;
+        let mid = id.id().unwrap();
+        if !after.power.claims.contains_key(&mid) || !before.power.claims.contains_key(&mid) { continue; }
+        let (eb, ea) = (evs(&before.power, mid), evs(&after.power, mid));
+        // ---- oracle: pending work has an event due at the next tick
+        if a.has_early_terminations && !ea.iter().any(|e| *e <= epoch + 1) {
+            // a failed callback consumes the event without a new one (F1 makes callbacks fail on young networks)
+            let failed_cb = all.iter().any(|t| t.to == id && t.method == fil_actor_miner::Method::OnDeferredCronEvent as u64 && !t.exit_code.is_success());
+            if !failed_cb {
+                cx.violation(Which::C05, "early-terminations-without-cron-event", format!("{}: miner {} has {} sectors awaiting early-termination processing and no ProcessEarlyTerminations event due (queued: {:?})", label, i, a.n_early_pending, ea));
+                return;
+            }
+        }
+        if cx.lean.is_none() { continue; }
+        let (qb, qa) = (b.n_early_pending as i64, a.n_early_pending as i64);
+        let processed = b.pledges.keys().filter(|k| !a.pledges.contains_key(k)).count() as i64;
+        let mut q: Option<String> = None;
+        if !is_tick && kind == "terminate" && target == Some(i) && res.ok() {
+            let q1 = qa + processed;
+            let n = q1 - qb;
+            if n >= 0 {
+                let cap = if qa > 0 { processed } else { q1.max(1) };
+                q = Some(format!("et_terminate {} {} {} {} {}", qb, ints(&eb), epoch, n, cap));
+            }
+        } else if is_tick {
+            let cbs: Vec<_> = all.iter().filter(|t| t.to == id && t.method == fil_actor_miner::Method::OnDeferredCronEvent as u64).collect();
+            if cbs.is_empty() || cbs.iter().any(|t| !t.exit_code.is_success()) { continue; }
+            let due_et = eb.iter().filter(|e| **e <= epoch).count();
+            let due_dl = before.power.cron_events.get(&mid).map(|v| v.iter().filter(|(e, t)| *t == 1 && *e <= epoch).count()).unwrap_or(0);
+            if due_et == 0 && due_dl == 1 {
+                // only the proving-deadline callback: it may detect timed-out faults; when nothing was
+                // pending before it also processes some of them at once.  Sectors that were faulty and
+                // left the pledge ledger in this tick were detected and processed here.
+                let faulty_b: BTreeSet<u64> = b.parts.iter().flat_map(|p| p.3.iter().cloned()).collect();
+                let processed_early = b.pledges.keys().filter(|k| !a.pledges.contains_key(k) && faulty_b.contains(k)).count() as i64;
+                let n = qa + processed_early - qb;
+                if n >= 0 && (qb == 0 || processed_early == 0) {
+                    let cap = if qa > 0 && qb == 0 { processed_early } else { (qb + n).max(1) };
+                    q = Some(format!("et_detect {} {} {} {} {}", qb, ints(&eb), epoch, n, cap));
+                }
+            } else if due_et == 1 && due_dl == 0 {
+                let cap = if qa > 0 { (qb - qa).max(0) } else { qb.max(1) };
+                q = Some(format!("et_tick {} {} {} {}", qb, ints(&eb), epoch, cap));
+            }
+        }
+        if std::env::var("BA_DEBUG_ET").is_ok() && (qb > 0 || qa > 0 || !eb.is_empty() || !ea.is_empty() || processed > 0) { eprintln!("ET {} miner {} e={} qb={} qa={} eb={:?} ea={:?} processed={} q={:?}", label, i, epoch, qb, qa, eb, ea, processed, q); }
+        if let Some(line) = q {
+            let want = format!("{} {}", qa, ints(&ea));
+            let l = cx.lean.as_mut().unwrap();
+            let ans = l.ask(&line).unwrap();
+            cx.rep.branch(&format!("cron:{}", line.split(' ').next().unwrap()));
+            if ans != want {
+                cx.agree = false;
+                let hdr = vec![format!("property C05 seed {} seq {}", cx.cfg.seed, cx.seq), format!("early-termination model disagrees at: {} (miner {})", label, i)];
                 let path = write_replay("C05", &format!("corr-{}-{}", cx.cfg.seed, cx.seq), &hdr, &cx.lines);
                 cx.rep.disagreements.push(Disagreement { seq: cx.seq, step: cx.rep.ops, op: line, impl_out: want, model_out: ans, replay: path });
                 cx.stop = true;
@@ -814,6 +895,12 @@ fn long_fault_script(c: &mut Chain, cx: &mut Ctx, pending: &mut Vec<Vec<(u64, i6
         }
         let t = dl.close.max(c.epoch() + 1);
         advance(c, cx, t, false);
+    }
+    // C05: from here on a single process_early_terminations call addresses at most two sectors, so that
+    // the three timed-out sectors need the deferred ProcessEarlyTerminations event (model: BA.EarlyTerm)
+    if cx.which == Which::C05 {
+        c.w.vm.policy.addressed_sectors_max = 2;
+        cx.lines.push("# policy.addressed_sectors_max = 2 from here on".into());
     }
     // ... and never again: run the chain through fault_max_age plus two proving periods
     let end = c.epoch() + c.policy.fault_max_age + 3 * c.policy.wpost_proving_period;
